@@ -343,8 +343,8 @@ def samp_e(repo: Repo) -> List[Ob]:
                 continue
             (obs.append(bad("SAMP-e", fi, key, P, c, f"{verdict}  [slice: {det}]")) if verdict else
              obs.append(ok("SAMP-e", fi, key, P, c, f"Born form: {det}")))
-    if sites < 12:
-        raise AnalysisError(f"SAMP-e: {sites} projective sampler sites (floor 12)")
+    if sites < len(PROJECTIVE):
+        raise AnalysisError(f"SAMP-e: {sites} projective sampler sites (floor: one per measuring function)")
     return obs
 
 
@@ -425,6 +425,19 @@ def samp_f(repo: Repo) -> List[Ob]:
 
 
 # ------------------------------------------------------------------------------------ COLLAPSE
+def outcome_names(fn: ast.FunctionDef) -> Set[str]:
+    """locals that hold a drawn outcome: assigned from a sampler call or from `outcomes[...]`"""
+    out: Set[str] = {"choice", "outcome"}
+    for _ in range(2):
+        for x in walk_no_nested(fn):
+            if isinstance(x, ast.Assign) and isinstance(x.targets[0], ast.Name):
+                t = src(x.value)
+                if "random.choice(" in t or any(isinstance(y, ast.Subscript) and src(y.value) in ("outcomes", "results") for y in ast.walk(x.value)) \
+                        or any(isinstance(y, ast.Name) and y.id in out and y.id not in ("choice", "outcome") for y in ast.walk(x.value)):
+                    out.add(x.targets[0].id)
+    return out
+
+
 def _depends_on_outcome(e: ast.AST, fi: FuncInfo, cfg: CFG, at: Node, depth: int = 0) -> bool:
     for x in [e] + list(ast.walk(e)):
         if isinstance(x, ast.Subscript) and src(x.value) in ("outcomes", "results"):
@@ -570,7 +583,10 @@ def collapse(repo: Repo) -> List[Ob]:
         raise AnalysisError("COLLAPSE: post-measurement writes of ProductState.measure not found")
     # sequential conditioning: the tensor is sliced by the drawn outcome inside the per-subsystem loop
     for loop in [x for x in walk_no_nested(ps.node) if isinstance(x, ast.For) and "states" in src(x.iter)]:
-        idx = [x for x in ast.walk(loop) if isinstance(x, ast.Assign) and isinstance(x.targets[0], ast.Subscript) and isinstance(x.targets[0].value, ast.Name) and "outcomes" in src(x.value)]
+        onames = outcome_names(ps.node)
+        idx = [x for x in ast.walk(loop) if isinstance(x, ast.Assign) and isinstance(x.targets[0], ast.Subscript) and isinstance(x.targets[0].value, ast.Name)
+               and src(x.targets[0].value) not in ("outcomes", "results")
+               and ("outcomes" in src(x.value) or any(isinstance(y, ast.Name) and y.id in onames for y in ast.walk(x.value)))]
         idx_names = {x.targets[0].value.id for x in idx}
         sl = [x for x in ast.walk(loop) if isinstance(x, ast.Assign) and isinstance(x.targets[0], ast.Name) and isinstance(x.value, ast.Subscript)
               and src(x.value.value) == x.targets[0].id and any(isinstance(y, ast.Name) and y.id in idx_names for y in ast.walk(x.value.slice))]
